@@ -63,7 +63,7 @@ def gen_config(rng, spec):
     k = rng.randint(3, len(FAST_QUERIES))
     enabled = rng.sample(FAST_QUERIES, k)
     slow = []
-    if not large and rng.random() < 0.2:
+    if not large and rng.random() < 0.35:
         slow = rng.sample(sorted(O.SLOW_QUERIES), rng.randint(1, 2))
     fault_kinds = [f for f in ("raiser", "wfail", "inject") if rng.random() < 0.5]
     return {
